@@ -318,10 +318,13 @@ def census(models, stats, classes):
 
 def check(spec):
     cells = G.expand_cells(spec)
+    spec = G.resolve_thresholds(spec, cells)
     models = G.pair_models(spec, cells)
     stats = {k: 0 for k in ('pairs', 'undefined', 'band', 'recorded', 'must', 'recorded_relaxed_or_band', 'recorded_undefined',
                             'direction_checked', 'runs', 'rename_pairs_compared', 'rename_pairs_skipped', 'rename_swapped_pairs')}
     classes = []
+    if spec.get('p_th_rule') == 'holm_band':
+        classes.append('tied_copies_with_threshold_inside_their_holm_products')
     ident = {l: l for l in spec['leaves']}
     with sandbox() as d:
         stats_path = G.write_stats(d / 'stats.h5', spec, cells)
